@@ -14,7 +14,8 @@ EXPLANATION = (
     'are among the keys the context helper injects as load-time patches (together with _socket), and the backend tests for '
     'exactly such an attribute before falling back to the payload. R3: delete waits for, then terminates the context; the '
     'context object forwards wait/terminate/close to its helper worker on the remote side and its helper reaps its workers '
-    '(C12.R2). R4: on the client side a False reply to create raises ValueError, and delete maps the reply to the alive flag.')
+    '(C12.R2). R4: on the client side a False reply to create raises ValueError, and delete maps the reply to the alive flag.'
+    " R2 also: None is the protocol's only no-context value, so no name that denotes the context id (the attribute sent first in a request header, the constructor parameters stored into it, the server's unpacked local) is tested for truth - `x or default` included. R1 also: on every path from the head of the accept loop to the reply the reply variable is assigned in that iteration, and a context leaves the table only in the delete branch.")
 TECHNIQUE = 'site/shape checks on the context table + key-set agreement between writer and reader'
 
 
